@@ -174,7 +174,7 @@ def replay(rp):
     P = lib.import_repo()
     if rp.get("kind") == "engine":
         s = "".join(chr(c) for c in rp["source"])
-        out = ec.replay_case(P, rp["grammar"], s, rp["offset"], rp.get("mode", MODE))
+        out = ec.replay_case(P, rp["grammar"], s, rp["offset"], rp.get("mode", MODE), decoy=rp.get("decoy"))
         print("implementation now:", out)
         print("recorded implementation:", rp["implementation"])
         print("reference (spec):", rp.get("reference"))
